@@ -83,7 +83,11 @@ class Execution:
 class Scheduler:
     def __init__(self, choices: list[int] | None = None, expect: Any = None,
                  max_points: int = 20000, max_vtime: float = 3600.0,
-                 lazy: tuple[str, ...] = ()) -> None:
+                 lazy: tuple[str, ...] = (), strategy: str = "default") -> None:
+        # strategy "rr": beyond the given prefix, pick the next thread in round-robin order at every
+        # point (a second deterministic schedule besides the default "keep running" one)
+        self.strategy = strategy
+        self._rr_last = -1
         # lazy: names of spawned threads that only run when nothing else can (a partial-order
         # reduction for scenarios whose oracle never reads what those threads write)
         self.lazy = set(lazy)
@@ -217,6 +221,11 @@ class Scheduler:
             idx = self.prefix[i]
             if idx >= len(cands):
                 raise HarnessError(f"replay divergence at point {i}: choice {idx} of {len(cands)}")
+        elif self.strategy == "rr" and len(cands) > 1:
+            ready_idx = [k for k, t in enumerate(cands) if t.status == READY]
+            pool = ready_idx or list(range(len(cands)))
+            after = [k for k in pool if cands[k].tid > self._rr_last]
+            idx = (after or pool)[0]
         else:
             idx = 0
         fp = (me.tid if me else -1, kind, info if isinstance(info, (str, int, tuple, type(None))) else str(info),
@@ -227,6 +236,7 @@ class Scheduler:
         self.choices.append(idx)
         self.trace.append(Point(fp[0], kind, fp[2], fp[3], idx))
         nxt = cands[idx]
+        self._rr_last = nxt.tid
         if nxt.status == SLEEPING:
             if nxt.wake > env.CLOCK.now:
                 env.CLOCK.now = nxt.wake
